@@ -1,9 +1,9 @@
 #!/bin/bash
 # seed sweep of the quick tier (false-alarm hunting on the unchanged tree)
-# usage: checks/sweep.sh "2 3 4" [tier]
+# usage: [PROPS="C01 C02"] checks/sweep.sh "2 3 4" [tier]
 tier=${2:-quick}
 for s in $1; do
-  for p in C01 C02 C03 C04 C05 C06 C07 C08 C09 C10 C11 C12 C13 C14 C15 C16 C17 C18 C19 C20; do
+  for p in ${PROPS:-C01 C02 C03 C04 C05 C06 C07 C08 C09 C10 C11 C12 C13 C14 C15 C16 C17 C18 C19 C20}; do
     out=$(VERIF_SEED=$s VERIF_EVIDENCE_DIR=/tmp/sweep_ev VERIF_REPLAY_DIR=/tmp/sweep_rp/$s /venv/bin/python checks/run.py $p --tier $tier 2>&1)
     rc=$?
     echo "seed=$s $p rc=$rc $(echo "$out" | tail -1)"
